@@ -60,7 +60,8 @@ func (w *tmWorld) header(hd M) *xibctmtypes.Header {
 	rev := uint64(1 + num(hd["rev"]))
 	chainID := fmt.Sprintf("verif-%d", rev)
 	h := SignedHeader(chainID, num(hd["height"]), w.Base.Add(time.Duration(num(hd["time"]))*tmUnit), w.rootBytes(str(hd["root"])), vals, next, signers)
-	h.TrustedHeight = clienttypes.NewHeight(1, uint64(num(hd["th"])))
+	th := uint64(num(hd["th"])) // height key: revision * 100 + block number (model revision 0 = chain id revision 1)
+	h.TrustedHeight = clienttypes.NewHeight(1+th/100, th%100)
 	tv, err := tvals.ToProto()
 	must(err)
 	h.TrustedValidators = tv
@@ -77,7 +78,7 @@ func (w *tmWorld) project() M {
 		rest := kb[len(pre):]
 		vb, _ := hex.DecodeString(dump[k])
 		if len(rest) == 16 {
-			h := int64(binary.BigEndian.Uint64(rest[8:]))
+			h := (int64(binary.BigEndian.Uint64(rest[:8]))-1)*100 + int64(binary.BigEndian.Uint64(rest[8:]))
 			csI, err := clienttypes.UnmarshalConsensusState(c.App.AppCodec(), vb)
 			if err != nil {
 				continue
@@ -93,13 +94,13 @@ func (w *tmWorld) project() M {
 			}
 			cons = append(cons, []interface{}{h, M{"time": int64(cs.Timestamp.Sub(w.Base) / tmUnit), "root": root, "next": next}})
 		} else if len(rest) == 16+len("/processedTime") {
-			h := int64(binary.BigEndian.Uint64(rest[8:16]))
+			h := (int64(binary.BigEndian.Uint64(rest[:8]))-1)*100 + int64(binary.BigEndian.Uint64(rest[8:16]))
 			meta = append(meta, []interface{}{h, (int64(binary.BigEndian.Uint64(vb)) - w.Base.UnixNano()) / int64(tmUnit)})
 		}
 	}
 	latest := int64(0)
 	if cs, ok := c.App.XIBCKeeper.ClientKeeper.GetClientState(c.Ctx(), w.Name); ok {
-		latest = int64(cs.GetLatestHeight().GetRevisionHeight())
+		latest = (int64(cs.GetLatestHeight().GetRevisionNumber())-1)*100 + int64(cs.GetLatestHeight().GetRevisionHeight())
 	}
 	return M{"cons": cons, "meta": meta, "latest": latest, "now": int64(c.Header.Time.Sub(w.Base) / tmUnit)}
 }
@@ -117,10 +118,11 @@ func (w *tmWorld) verifyGate() [][]interface{} {
 	if empty == nil {
 		empty = []byte{}
 	}
-	for h := uint64(1); h <= 7; h++ {
+	for _, key := range []uint64{1, 2, 3, 4, 5, 6, 7, 101, 102, 103, 104, 105, 106, 107} {
+		h := key
 		ctx, _ := c.Ctx().CacheContext()
 		store := c.App.XIBCKeeper.ClientKeeper.ClientStore(ctx, w.Name)
-		err := cs.VerifyPacketCommitment(ctx, store, c.App.AppCodec(), clienttypes.NewHeight(1, h), empty, "verif-1", c.ChainID, 1, []byte("x"))
+		err := cs.VerifyPacketCommitment(ctx, store, c.App.AppCodec(), clienttypes.NewHeight(1+key/100, key%100), empty, "verif-1", c.ChainID, 1, []byte("x"))
 		res := "pass"
 		if err != nil {
 			m := err.Error()
@@ -172,6 +174,17 @@ func driveTMClient(t *testing.T, in, out string, seed int64) {
 			case "Tick":
 				c.CommitAdvance(time.Duration(num(st["d"])) * tmUnit)
 				line["res"] = "ok"
+			case "Upgrade":
+				// governance moves the client to the counterparty's next revision (chain id verif-2) at block h, dated now
+				nx := w.valset(st["next"].(M))
+				chainU := fmt.Sprintf("verif-%d", 1+num(st["rev"]))
+				hdU := SignedHeader(chainU, num(st["h"]), c.Header.Time, w.rootBytes(str(st["root"])), nx, nx, nil)
+				csU := xibctmtypes.NewClientState(chainU, xibctmtypes.Fraction{Numerator: 1, Denominator: 3}, 3*tmUnit, 4*tmUnit, 1*tmUnit,
+					clienttypes.NewHeight(uint64(1+num(st["rev"])), uint64(num(st["h"]))), commitmenttypes.GetSDKSpecs(), commitmenttypes.MerklePrefix{KeyPrefix: []byte("xibc")}, uint64(tmUnit))
+				prop, err := clienttypes.NewUpgradeClientProposal("t", "d", w.Name, csU, hdU.ConsensusState())
+				must(err)
+				res, msg := c.ExecProposal(prop)
+				line["res"], line["msg"] = res, clip(msg)
 			default:
 				t.Fatalf("unknown action %q", act)
 			}
